@@ -585,6 +585,8 @@ def check(ctx):
     rep.note(f"{n_args} wire arguments ({n_der} derived, {n_lit} literal); {n_sym} generic symbolic attachments; {n_regs} registrations; "
              f"{n_cls} classes with resource keys; {n_sig} resource-function signatures bound")
     from .c10_extra import extra
+    from .c10_pow import powmod
 
     extra(ctx, rep)
+    powmod(ctx, rep, sc)
     return rep
